@@ -16,10 +16,18 @@ reports a broken tie).  No third-party modules.
 """
 import os
 import re
+import sys
 
-REPO = os.environ.get("VERIF_REPO", "/repo")
-SRC = os.path.join(REPO, "maven_dependency_resolver", "src", "lib.rs")
-OUT = os.path.join(os.path.dirname(os.path.dirname(os.path.abspath(__file__))), "coq", "C19", "ScopeGen.v")
+sys.path.insert(0, os.path.join(os.path.dirname(os.path.dirname(os.path.abspath(__file__))), "lib"))
+import vcheck  # vcheck.REPO: the repository under test; vcheck.COQ: the Coq project to write into
+
+
+def src_path():
+    return os.path.join(vcheck.REPO, "maven_dependency_resolver", "src", "lib.rs")
+
+
+def out_path():
+    return os.path.join(vcheck.COQ, "C19", "ScopeGen.v")
 
 
 def strip_comments(src):
@@ -121,9 +129,9 @@ def unquote(lit, errs):
 def translate():
     errs = []
     try:
-        src = strip_comments(open(SRC, encoding="utf-8").read())
+        src = strip_comments(open(src_path(), encoding="utf-8").read())
     except OSError as ex:
-        return ["cannot read %s: %s" % (SRC, ex)]
+        return ["cannot read %s: %s" % (src_path(), ex)]
 
     # ---- enum ----
     m = re.search(r"pub\s+enum\s+DependencyScope\s*\{", src)
@@ -342,6 +350,7 @@ def translate():
     lines.append("Definition optional_default : bool := %s." % mo.group(1))
     text = "\n".join(lines) + "\n"
 
+    OUT = out_path()
     os.makedirs(os.path.dirname(OUT), exist_ok=True)
     old = None
     if os.path.exists(OUT):
